@@ -81,6 +81,7 @@ type fnRes struct {
 	exitCells map[string]aval
 	weak      map[string]aval
 	callArgs  map[*ssa.Function][]aval
+	vals       map[ssa.Value]aval // every int value, joined over all contexts
 	fieldsRead map[string]bool
 	retsUsed   map[*ssa.Function]bool
 	widened   bool
@@ -601,7 +602,7 @@ func ctxKey(b *ssa.BasicBlock, ctx []int) string {
 func (e *rangeEngine) analyse(fn *ssa.Function, forceWiden bool) *fnRes {
 	a := &fnAnalysis{e: e, fn: fn, in: map[string]*rstate{}, joins: map[string]int{}, widen: forceWiden, caps: map[*loopInfo]int{}}
 	a.flags = flagPhis(fn)
-	a.res = &fnRes{fn: fn, obs: map[ssa.Instruction]map[ssa.Value]aval{}, ret: botVal(), retF: fbot(), exitCells: map[string]aval{}, weak: map[string]aval{}, callArgs: map[*ssa.Function][]aval{}, fieldsRead: map[string]bool{}, retsUsed: map[*ssa.Function]bool{}}
+	a.res = &fnRes{fn: fn, obs: map[ssa.Instruction]map[ssa.Value]aval{}, ret: botVal(), retF: fbot(), exitCells: map[string]aval{}, weak: map[string]aval{}, callArgs: map[*ssa.Function][]aval{}, fieldsRead: map[string]bool{}, retsUsed: map[*ssa.Function]bool{}, vals: map[ssa.Value]aval{}}
 	if len(fn.Blocks) == 0 {
 		return a.res
 	}
@@ -933,6 +934,13 @@ func isCellRoot(v ssa.Value) bool {
 
 func (a *fnAnalysis) block(b *ssa.BasicBlock, st *rstate) {
 	for _, ins := range b.Instrs {
+		if v, ok := ins.(ssa.Value); ok && isIntType(v.Type()) {
+			defer func(v ssa.Value) {
+				if val, ok := st.iv[v]; ok {
+					a.res.vals[v] = joinVal(a.res.vals[v].orBot(), val)
+				}
+			}(v)
+		}
 		switch x := ins.(type) {
 		case *ssa.Phi:
 			// set on the incoming edge
@@ -1807,6 +1815,20 @@ func (a aval) keepAx(x, y aval) aval {
 }
 
 // ---- queries ----
+
+// obsValue: the join, over all contexts, of an int value (constants evaluate to themselves).
+func (e *rangeEngine) obsValue(fn *ssa.Function, v ssa.Value) aval {
+	if c, ok := v.(*ssa.Const); ok && c.Value != nil && c.Value.Kind() == constant.Int {
+		k, _ := constant.Int64Val(c.Value)
+		return constVal(k)
+	}
+	if r := e.res[fn]; r != nil {
+		if val, ok := r.vals[v]; ok {
+			return val
+		}
+	}
+	return botVal()
+}
 
 func (e *rangeEngine) obsAt(fn *ssa.Function, ins ssa.Instruction, v ssa.Value) aval {
 	if c, ok := v.(*ssa.Const); ok && c.Value != nil && c.Value.Kind() == constant.Int {
